@@ -92,12 +92,16 @@ func zzCheckBatch(m *zzPoolModel, b *raftproto.RequestBatch, batchSize uint64) {
 	m.batches = append(m.batches, b)
 }
 
-func zzCommitOldest(mp *mempoolImpl, m *zzPoolModel) {
-	if len(m.batches) == 0 {
+func zzCommitOldest(mp *mempoolImpl, m *zzPoolModel) { zzCommitAt(mp, m, 0) }
+
+// zzCommitAt reports the outstanding batch at position i as committed (commit reports travel on
+// separate goroutines, app/feedhub.go: they may arrive out of order).
+func zzCommitAt(mp *mempoolImpl, m *zzPoolModel, i int) {
+	if i < 0 || len(m.batches) <= i {
 		return
 	}
-	b := m.batches[0]
-	m.batches = m.batches[1:]
+	b := m.batches[i]
+	m.batches = append(append([]*raftproto.RequestBatch{}, m.batches[:i]...), m.batches[i+1:]...)
 	st := &ChainState{Height: b.Height}
 	for _, tx := range b.TxList.Transactions {
 		st.TxHashList = append(st.TxHashList, tx.GetHash())
@@ -222,5 +226,64 @@ func zzPoolHist() {
 			}
 			zz.Assert("C19.ready-tx-not-stuck", superseded)
 		}
+	}
+}
+
+// ZZH_C18_pipeline: one account with P consecutive transactions in the pool (P = 2..4), G batches
+// already generated and outstanding (a leader ahead of the executor), then three free operations
+// among: generate, the oldest / the newest outstanding batch is reported committed (reports may
+// arrive out of order), the next nonce is submitted. No (account, nonce) is handed to consensus
+// twice, batches stay consecutive, and after draining every transaction was batched exactly once
+// and the pool reports no pending work.
+// zz:also C19
+func ZZH_C18_pipeline() {
+	zz.ConcreteClock(1000) // arrival order = submission order; ageing is the subject of ZZH_C19_evict
+	batchSize := uint64(1 + zz.Choice("batchSize", 2))
+	m := &zzPoolModel{committed: append([]uint64{}, zzBase...), nextBatch: append([]uint64{}, zzBase...), lastHeight: 1}
+	mp := zzNewPool(batchSize, m)
+	nextHash := 0
+	submit := func() {
+		if nextHash >= len(zzHashes) {
+			return
+		}
+		n := zzBase[0] + uint64(nextHash)
+		h := zzHashes[nextHash]
+		nextHash++
+		tx := &pb.BxhTransaction{From: zzAccts[0], To: zzAccts[1], Nonce: n, Timestamp: 1, TransactionHash: types.NewHashByStr(h)}
+		m.subs = append(m.subs, &zzSubmitted{acct: 0, nonce: n, hash: h, tx: tx, admitted: true})
+		zzCheckBatch(m, mp.ProcessTransactions([]pb.Transaction{tx}, false, true), batchSize)
+	}
+	P := 2 + zz.Choice("inPool", 3)
+	for i := 0; i < P; i++ {
+		submit()
+	}
+	G := zz.Choice("outstanding", 4)
+	for i := 0; i < G; i++ {
+		zzCheckBatch(m, mp.GenerateBlock(), batchSize)
+	}
+	for step := 0; step < 3; step++ {
+		switch zz.Choice("op", 4) {
+		case 0:
+			zzCheckBatch(m, mp.GenerateBlock(), batchSize)
+		case 1:
+			zzCommitAt(mp, m, 0)
+		case 2:
+			zzCommitAt(mp, m, len(m.batches)-1)
+		case 3:
+			submit()
+		}
+		pn := mp.GetPendingNonceByAccount(zzAccts[0].String())
+		zz.Assert("C19.pipeline.pending-nonce", pn == zzBase[0]+uint64(nextHash))
+	}
+	for round := 0; round < 5; round++ {
+		zzCheckBatch(m, mp.GenerateBlock(), batchSize)
+	}
+	zz.Assert("C19.pipeline.everything-batched", m.nextBatch[0] == zzBase[0]+uint64(nextHash))
+	for len(m.batches) > 0 {
+		zzCommitAt(mp, m, len(m.batches)-1)
+	}
+	zz.Assert("C19.pipeline.no-pending-after-drain", !mp.HasPendingRequest())
+	for _, s := range m.subs {
+		zz.Assert("C19.pipeline.committed-tx-gone", mp.GetTransaction(types.NewHashByStr(s.hash)) == nil)
 	}
 }
